@@ -219,6 +219,7 @@ def modelRaises : List (String × String × String) := [
   ("SingleAxisFiniteDifference.__init__", "append not in [None, 0, 1]", "ValueError"),
   ("DFT.__init__", "axes is not None and axes_shape is not None and (len(axes) != len(axes_shape))", "ValueError"),
   ("CircularConvolve.__init__", "h_is_dft and h_center is not None", "ValueError"),
+  ("CircularConvolve.__init__", "self.real and snp.dtype(input_dtype).kind == 'c'", "ValueError"),
   ("CircularConvolve.__init__", "except ValueError", "ValueError"),
   ("CircularConvolve.from_operator", "is_nested(H.input_shape)", "ValueError"),
   ("Convolve.__init__", "h.ndim != len(input_shape)", "ValueError"),
@@ -284,6 +285,33 @@ def modelledGuards : List (String × String) := [
   ("normalize_axes", "max(axes) >= len(shape) or min(axes) < 0"),
   ("normalize_axes", "len(set(axes)) != len(axes)")
 ]
+
+/-- the guard added in e839754 (`self.real` with a complex input dtype) can only fire through the `output_dtype` keyword
+    (closed forms of sums / scalar multiples): for the constructor arguments the model covers, `circInit` never declares a
+    real output for a complex input -/
+theorem circInit_real_guard_unreachable (hs is : List Nat) (nd : Option Nat) (hd hc : Bool) (a b : DT) (out : List Nat)
+    (odt : DT) (h : circInit hs is nd hd hc a b = some (out, odt, true)) : b.cx = false := by
+  unfold circInit at h
+  by_cases h1 : (hd && hc) = true
+  · simp [h1] at h
+  · rw [if_neg h1] at h
+    cases hd
+    · simp only [Bool.false_eq_true, if_false] at h
+      split at h
+      · cases h
+      · simp only [Option.some.injEq, Prod.mk.injEq] at h
+        obtain ⟨_, h2, h3⟩ := h
+        subst h2
+        revert h3
+        cases a <;> cases b <;> decide
+    · simp only [if_true] at h
+      split at h
+      · cases h
+      · simp only [Option.some.injEq, Prod.mk.injEq] at h
+        obtain ⟨_, h2, h3⟩ := h
+        subst h2
+        revert h3
+        cases b <;> decide
 
 theorem modelledGuards_are_error_cases :
     modelledGuards.all (fun g => modelRaises.any (fun r => r.1 = g.1 ∧ r.2.1 = g.2)) = true := by decide
